@@ -70,6 +70,12 @@ func writeEdwards(repoRoot, srcRoot, verifRoot string, check bool) int {
 		s = strings.ReplaceAll(s, "ACOEFF", pk[p])
 		stale += installText(filepath.Join(repoRoot, rel, "zz_verif_contracts_edwards.go"), s, check)
 	}
+	if c, err := os.ReadFile(filepath.Join(verifRoot, "contracts", "point", "twistededwards_codec.go.tmpl")); err == nil {
+		for _, p := range sortedStrKeys(pk) {
+			rel := strings.TrimPrefix(p, "./")
+			stale += installText(filepath.Join(repoRoot, rel, "zz_verif_contracts_edwardscodec.go"), strings.ReplaceAll(string(c), "PKG", filepath.Base(rel)), check)
+		}
+	}
 	return stale
 }
 
